@@ -576,7 +576,7 @@ def run(index, rep, tier):
 
     # ---- R06.16 partial results are merged whatever namespace object they carry
     with rep.section("R06.16"):
-        rep.rule("R06.16", "partial results are merged whatever namespace OBJECT they carry: TreeArray.update - the method sumtrees collates the workers' arrays with, which arrive unpickled with a copy of the namespace - neither tests nor asserts identity of the two namespaces, directly or through an own method it calls (extend() does assert it, so update() may not be written in terms of extend())")
+        rep.rule("R06.16", "partial results are merged whatever namespace OBJECT they carry: TreeArray.update - the method sumtrees collates the workers' arrays with, which arrive unpickled with a copy of the namespace - does not DEMAND identity of the two namespaces (an assert, or a test with a raising branch), directly or through an own method it calls (extend() does assert it, so update() may not be written in terms of extend())")
         up = index.function(TA + ".update")
         seen_q, work = set(), [(up, 0)]
         bad = None
@@ -585,9 +585,17 @@ def run(index, rep, tier):
             if f.qualname in seen_q:
                 continue
             seen_q.add(f.qualname)
+            gq = cfg_of(f)
             for x in ast.walk(f.node):
                 if isinstance(x, ast.Compare) and len(x.ops) == 1 and isinstance(x.ops[0], (ast.Is, ast.IsNot)) and "taxon_namespace" in norm(x.left) and "taxon_namespace" in norm(x.comparators[0]):
-                    bad = bad or (f, x)
+                    # a DEMAND: asserted, or a test one of whose branches raises (a test that merely chooses between
+                    # 'same namespace' and 'migrate first' is the opposite of a demand)
+                    demanded = any(isinstance(a, ast.Assert) and any(y is x for y in ast.walk(a.test)) for a in ast.walk(f.node))
+                    for tn in gq.nodes:
+                        if tn.kind == "test" and any(y is x for y in ast.walk(tn.ast)) and (raises_in_branch(gq, tn, "t") is not None or raises_in_branch(gq, tn, "f") is not None):
+                            demanded = True
+                    if demanded:
+                        bad = bad or (f, x)
             if d < 2:
                 for c in calls_in(f.node):
                     if isinstance(c.func, ast.Attribute) and norm(c.func.value) == "self":
